@@ -436,6 +436,21 @@ fn sections(p: &Params) -> Program {
                 }),
             ]
         }
+        // 12. (C14) a guard that has outlived its handle is reactivated while another participant
+        //     advances: the participant must stay registered (and hold the epoch back) for as
+        //     long as the guard lives
+        11 => vec![
+            ebody(&ew, move |c, ew| {
+                let h = take(0)(ew);
+                let mut g = c.pin(&h);
+                drop(h);
+                c.reactivate(&mut g);
+                c.mark();
+                c.mark();
+                c.unpin(g);
+            }),
+            advancer(1, 3),
+        ],
         // 8. the handle is dropped while a guard is alive: unregistration happens at unpin
         _ => vec![
             ebody(&ew, move |c, ew| {
@@ -1256,12 +1271,27 @@ fn queue_program(p: &Params, e0: usize, init: Vec<u64>, progs: Vec<Vec<QOp>>) ->
         })),
         threads,
         post: Some(ebody(&ew2, move |c, ew| {
-            // whatever is left comes out in order
             let h = ew.collector.register();
+            let tail_ok = |when: &str| {
+                // with no operation in progress the tail is on a node of the queue; a tail left
+                // on a node that was popped dangles once that node has been reclaimed, and the
+                // next push links its element to nowhere
+                let g = h.pin();
+                if !ew.queue.tail_reachable(&g) {
+                    mon().violate("C17", "tail-on-retired-node", format!("{}: with no operation in progress the queue's tail points to a node that is no longer reachable from its head", when));
+                }
+            };
+            tail_ok("after the concurrent phase");
+            // whatever is left comes out in order
             for _ in 0..8 {
                 run_op(c, ew, &h, Pop);
             }
+            tail_ok("after emptying the queue");
+            // retired nodes are reclaimed; the queue still works afterwards
             c.rounds(&h, 6);
+            run_op(c, ew, &h, Push(99));
+            run_op(c, ew, &h, Pop);
+            tail_ok("at the end");
             drop(h);
         })),
         finish: Some(Box::new(|m: &mut Monitor| {
